@@ -14,7 +14,7 @@ namespace Sexp
 
 def escape (s : String) : String :=
   s.foldl (fun acc c => if c == '"' then acc ++ "\\\"" else if c == '\\' then acc ++ "\\\\"
-    else if c == '\n' then acc ++ "\\n" else acc.push c) ""
+    else if c == '\n' then acc ++ "\\n" else if c == '\r' then acc ++ "\\r" else acc.push c) ""
 
 partial def toStr : Sexp → String
   | .atom s => s
@@ -46,6 +46,7 @@ partial def parseAux : List Char → Option (Sexp × List Char)
         | [] => none
         | '"' :: ds => some (.str acc, ds)
         | '\\' :: 'n' :: ds => str (acc.push '\n') ds
+        | '\\' :: 'r' :: ds => str (acc.push '\r') ds
         | '\\' :: d :: ds => str (acc.push d) ds
         | d :: ds => str (acc.push d) ds
       str "" cs
